@@ -758,6 +758,12 @@ def finishedGet (m : List (Nat Ã— Nat Ã— Option G16)) (id : Nat) : Option (Nat Ã
 def finishedSet (m : List (Nat Ã— Nat Ã— Option G16)) (id : Nat) (v : Nat Ã— Option G16) : List (Nat Ã— Nat Ã— Option G16) :=
   (id, v) :: m.filter (fun e => e.1 != id)
 
+/-- `covered.as_ref().map(|cov| cov.contains(gid)).unwrap_or(false)` -/
+def coveredHas (covered : Option G16) (g : Nat) : Bool :=
+  match covered with
+  | some cov => cov.contains g
+  | none => false
+
 /-- `ClosureCtx::needs_to_do_lookup(id, current_glyphs)`: the entry `(count, covered)` of the lookup is
 reset when the closure grew since it was last run; the lookup is skipped when every current glyph is
 already covered; otherwise the current glyphs are added to `covered`. -/
@@ -765,7 +771,7 @@ def needsToDo (c : Cx) (id : Nat) (current : Option G16) : Bool Ã— Cx :=
   let e0 := (finishedGet c.finished id).getD (0, none)
   let e1 : Nat Ã— Option G16 := if e0.1 â‰  c.glyphs.length then (c.glyphs.length, some []) else e0
   let cur := current.getD c.glyphs
-  if cur.all (fun g => match e1.2 with | some cov => cov.contains g | none => false) then
+  if cur.all (coveredHas e1.2) then
     (false, { c with finished := finishedSet c.finished id e1 })
   else
     (true, { c with finished := finishedSet c.finished id (e1.1, some ((e1.2.getD []).ext cur)) })
